@@ -1,4 +1,69 @@
-import CircuitModel.Basic
+/-
+  Props/C14.lean — lock-free counters conserve counts under every interleaving.
+  All theorems: ANY number of threads, ANY programs of Inc / RollingSumAt / GetBuckets / Reset with any requested
+  bucket indices (incl. pre-start times), EVERY schedule of the individual atomic steps.
+-/
+import CircuitModel.Conc.RC
+import CircuitProofs.Lemmas.ConcRC
 namespace CM.Props.C14
-theorem placeholder : True := trivial
+open CM.Conc CM.Conc.RC
+
+/-- pending effects: a thread between a bucket Swap(0) and the matching rollingSum.Add(-x) still owes -x; a thread
+    between buckets[idx].Add(1) and rollingSum.Add(1) still owes +1 -/
+def owes (l : Local) : Int :=
+  match l.pc with
+  | .advDec _ _ _ x _ => -x
+  | .rsDec _ x => -x
+  | .incRolling => 1
+  | _ => 0
+
+/-- CONSERVATION, at every instant of every schedule: rollingSum + (what threads still owe it) = Σ buckets,
+    every bucket is ≥ 0, and totalSum = number of Inc calls started -/
+theorem conservation (n : Nat) (hn : 0 < n) (progs : List (List Op)) (sched : List Nat) :
+    let c := run sys (init n progs) sched
+    c.shared.rolling + (c.locals.map owes).sum = c.shared.buckets.sum ∧
+    (∀ b ∈ c.shared.buckets, 0 ≤ b) ∧ c.shared.buckets.length = n ∧
+    c.shared.total = ((c.locals.map (·.incsStarted)).sum : Nat) := by
+  sorry
+
+/-- QUIESCENCE (all operations have returned): TotalSum = number of Inc calls, rolling sum = Σ buckets,
+    0 ≤ rolling sum ≤ number of Inc calls -/
+theorem quiescent_counts (n : Nat) (hn : 0 < n) (progs : List (List Op)) (sched : List Nat)
+    (hq : quiescent (run sys (init n progs) sched) = true) :
+    let c := run sys (init n progs) sched
+    c.shared.total = (incCount progs : Nat) ∧ c.shared.rolling = c.shared.buckets.sum ∧
+    0 ≤ c.shared.rolling ∧ c.shared.rolling ≤ (incCount progs : Nat) := by
+  sorry
+
+/-- the newest index only moves forward and never beyond the largest index requested so far -/
+theorem last_bounded (n : Nat) (hn : 0 < n) (progs : List (List Op)) (sched : List Nat) :
+    (run sys (init n progs) sched).shared.last ≤ maxRequested progs := by
+  sorry
+
+theorem last_monotone (n : Nat) (hn : 0 < n) (progs : List (List Op)) (sched sched' : List Nat) :
+    (run sys (init n progs) sched).shared.last ≤ (run sys (init n progs) (sched ++ sched')).shared.last := by
+  sorry
+
+/-- at quiescence the ring's newest index EQUALS the largest index requested -/
+theorem quiescent_last_is_max (n : Nat) (hn : 0 < n) (progs : List (List Op)) (sched : List Nat)
+    (hq : quiescent (run sys (init n progs) sched) = true) :
+    (run sys (init n progs) sched).shared.last = maxRequested progs := by
+  sorry
+
+/-- when no operation has to roll the window (every requested index is 0, the initial newest index) and nobody
+    resets, the rolling sum at quiescence is EXACTLY the number of in-window Inc calls -/
+def inWindowIncs (progs : List (List Op)) : Nat :=
+  (progs.flatten.filter fun o => match o with | .inc (some _) => true | _ => false).length
+
+theorem no_roll_exact (n : Nat) (hn : 0 < n) (progs : List (List Op)) (sched : List Nat)
+    (hnoroll : ∀ o ∈ progs.flatten, o.req = none ∨ o.req = some 0)
+    (hnoreset : ∀ o ∈ progs.flatten, ∀ r, o ≠ .reset r)
+    (hq : quiescent (run sys (init n progs) sched) = true) :
+    (run sys (init n progs) sched).shared.rolling = (inWindowIncs progs : Nat) := by
+  sorry
+
+/-- non-vacuity: two threads racing the roll-over from bucket 0 to bucket 1 of a 2-bucket ring -/
+example : quiescent (run sys (init 2 [[.inc (some 0), .inc (some 1)], [.inc (some 1)]])
+    [0,0,0,0, 1,1, 0,0, 1, 0,0,0,0,0,0,0, 1,1,1,1,1,1,1,1,1]) = true := by decide
+
 end CM.Props.C14
